@@ -772,6 +772,37 @@ fn malformed() -> Vec<Item> {
     srcs.into_iter().map(|(n, b)| solo(item(format!("malformed string literal: {n}"), b, Exp::Unspecified, "malformed"))).collect()
 }
 
+fn hex_escapes() -> Vec<Item> {
+    let mut v = vec![];
+    for b in 1u8..0x80 {
+        let lower = format!("{b:02x}");
+        let upper = format!("{b:02X}");
+        let mut spellings = vec![lower.clone()];
+        if upper != lower {
+            spellings.push(upper.clone());
+            let mixed1: String = lower.chars().next().into_iter().chain(upper.chars().nth(1)).collect();
+            let mixed2: String = upper.chars().next().into_iter().chain(lower.chars().nth(1)).collect();
+            for m in [mixed1, mixed2] {
+                if !spellings.contains(&m) {
+                    spellings.push(m);
+                }
+            }
+        }
+        for sp in spellings {
+            for (qn, open, close) in [("double", "\"", "\""), ("single", "'", "'"), ("triple", "\"\"\"", "\"\"\"")] {
+                let text = format!("<{}>", b as char);
+                v.push(item(
+                    format!("{qn}-quoted literal `<\\x{sp}>`"),
+                    format!("vh_emit_str({open}<\\x{sp}>{close})"),
+                    Exp::Done(vec![Want::Str(text)]),
+                    "str:hex-escape",
+                ));
+            }
+        }
+    }
+    v
+}
+
 // ================================================================== units
 
 #[derive(Clone, Debug)]
@@ -787,10 +818,12 @@ enum Unit {
     Layouts(usize),
     LayoutSlice(usize, usize), // number of lines, index of the first (indent, line) choice
     Malformed,
+    /// every `\xHH` escape below 0x80 in every letter-case spelling of its hex digits, in the three quote styles
+    HexEscapes,
 }
 
 fn units(tier: Tier) -> Vec<Unit> {
-    let mut u = vec![Unit::IntsOk, Unit::IntsBad, Unit::FloatLong, Unit::FloatSep, Unit::Malformed];
+    let mut u = vec![Unit::IntsOk, Unit::IntsBad, Unit::FloatLong, Unit::FloatSep, Unit::Malformed, Unit::HexEscapes];
     for (il, fl) in [(1, 1), (1, 2), (2, 1)] {
         u.push(Unit::FloatShort(il, fl, false));
         u.push(Unit::FloatShort(il, fl, true));
@@ -887,6 +920,7 @@ fn unit_items(tier: Tier, u: &Unit) -> Vec<Item> {
                 .collect()
         }
         Unit::Malformed => malformed(),
+        Unit::HexEscapes => hex_escapes(),
     }
 }
 
@@ -950,7 +984,7 @@ impl Prop for C30 {
              float literals: all I.F with |I|+|F| ≤ {} digits (positive and negated; expected = one correctly rounded division N/10^k, cross-checked with str::parse), round-half family from exact decimal expansions \
              (exact value, midpoint to the successor/predecessor, ±1 in the last digit, truncations to 17-20 significant digits, zero padding) of boundary values incl. subnormals, 2^53, 1e22/1e23, MAX, plus 300-400 digit spellings and `_` placements; \
              every float expectation is verified by an independent exact-decimal bracket check; literals that round to ±inf or underflow to 0 are Unspecified; \
-             strings: all strings of length ≤ {} over {:?} as double-, single- and triple-quoted literals written by two escapers (only \\n \\t \\r \\\" \\' \\\\ \\xHH<0x80); \
+             strings: all strings of length ≤ {} over {:?} as double-, single- and triple-quoted literals written by two escapers (only \\n \\t \\r \\\" \\' \\\\ \\xHH<0x80), and every \\xHH escape for 01..7f in every letter-case spelling of its digits in the three quote styles; \
              multi-line layouts: ≤ 3 content lines × indent {{0,2,4,TAB}} × line menu ({}) × opener residue × closer (own line with indent / inline): exact value where the repository's multiline_string_* tests pin the rule, \
              otherwise only 'no non-whitespace character is lost' (or rejection); malformed literals: no fault. Every case is distinct by construction and counted as non-trivial",
             DIGIT_MENU,
